@@ -607,6 +607,10 @@ func (c *Ctx) classifyMapLoop(f *FuncInfo, rs *ast.RangeStmt) (class string, rea
 								case *ast.AssignStmt:
 									for _, l := range s.Lhs {
 										if ro := rootOf(l); ro != nil && !own[ro] {
+											if isErrorLike(ro.Type()) {
+												classes["error-accumulation"] = true
+												continue
+											}
 											bad = ro.Name()
 										}
 									}
@@ -619,6 +623,26 @@ func (c *Ctx) classifyMapLoop(f *FuncInfo, rs *ast.RangeStmt) (class string, rea
 							})
 							if bad != "" {
 								add("closure-writes:"+bad, "calls local closure "+id.Name+" which writes "+bad)
+							}
+							// the closure's parameters and locals are fresh on every call; a
+							// parameter stands for the argument it is called with.
+							for o := range own {
+								inLoop[o] = true
+							}
+							if fl.Type.Params != nil {
+								i := 0
+								for _, fld := range fl.Type.Params.List {
+									for _, nm := range fld.Names {
+										if i < len(x.Args) {
+											if oo := outerOrAlias(x.Args[i]); oo != nil && isRefType(oo.Type()) {
+												if po := info.Defs[nm]; po != nil {
+													aliasOuter[po] = oo
+												}
+											}
+										}
+										i++
+									}
+								}
 							}
 							exprEffects(fl.Body)
 							return true
